@@ -97,6 +97,19 @@ def stock_case(sc):
     rec = dict(case=sc["case"])
     if not ss.PFlow.run():
         return dict(rec, skipped="pflow")
+    As_plain = None
+    if sc.get("flow"):
+        # the same analysis reached through another documented flow must be the analysis of the same operating point: the
+        # caller initialises the simulation first (with or without the routine's own initialisation test), then asks for
+        # the eigenvalues; the state matrix is compared with the one of the plain flow on a fresh System
+        from andes.shared import matrix as _m
+        ref = load_case(sc["case"])
+        ref.TDS.config.no_tqdm = 1
+        if not (ref.PFlow.run() and ref.EIG.run()):
+            return dict(rec, skipped="eig refused (plain flow)")
+        As_plain = np.array(_m(ref.EIG.As))
+        ss.TDS.config.test_init = 0 if sc["flow"] == "init_first_untested" else 1
+        ss.TDS.init()
     ok = ss.EIG.run()
     if not ok:
         return dict(rec, skipped="eig refused")
@@ -156,8 +169,10 @@ def stock_case(sc):
         return bool(abs(np.sum(mus) - np.trace(A)) <= 1e-6 * scale * max(1, A.shape[0]) ** 0.5)
     pf = np.asarray(eig.pfactors)
     tol = eig.config.tol
+    if As_plain is not None:
+        rec["flow_same"] = bool(As.shape == As_plain.shape and np.allclose(As, As_plain, rtol=1e-7, atol=1e-9))
     rec.update(n=int(dae.n), nzero_T=int(len(z)), shape_ok=bool(As.shape == As_ref.shape),
-               as_ok=bool(As.shape == As_ref.shape and np.allclose(As, As_ref, rtol=1e-6, atol=1e-8)),
+               as_ok=bool(As.shape == As_ref.shape and np.allclose(As, As_ref, rtol=1e-6, atol=1e-8) and rec.get("flow_same", True)),
                eig_ok=bool(spectrum_ok(mu, As_ref)), count_ok=bool(len(mu) == len(d)),
                names_ok=bool(list(eig.x_name) == [dae.x_name[i] for i in d]),
                counts_partition=bool(eig.n_positive + eig.n_zeros + eig.n_negative == len(mu)),
